@@ -1,6 +1,6 @@
 import sys
 from time import time
-from numpy import array, ndarray, mean, argmax
+from numpy import array, ndarray, mean, argmax, atleast_1d
 from numpy.fft import rfft, irfft
 from numpy import divmod as np_divmod
 
@@ -99,6 +99,8 @@ class Bounds:
     def __init__(self, lower: ndarray, upper: ndarray, error_source="Bounds"):
         self.lower = lower if isinstance(lower, ndarray) else array(lower).squeeze()
         self.upper = upper if isinstance(upper, ndarray) else array(upper).squeeze()
+        # a single parameter given as a number or a length-1 sequence: keep one dimension
+        self.lower, self.upper = atleast_1d(self.lower), atleast_1d(self.upper)
 
         if self.lower.ndim > 1 or self.upper.ndim > 1:
             raise ValueError(
